@@ -156,6 +156,25 @@ def atoms(env):
 
 # ------------------------------------------------------------------------------------------------ reference gates with derivatives
 ZZ = np.kron(ref.Z, ref.Z)
+XZ = np.kron(ref.X, ref.Z)
+
+
+def hf_rxz(theta):
+    """harness-defined matrix function for a user ParameterGate: exp(-i theta X(x)Z / 2), numpy / torch, batched like numqi.gate.rzz"""
+    try:
+        import torch
+        is_t = isinstance(theta, torch.Tensor)
+    except Exception:
+        is_t = False
+    if is_t:
+        P = torch.tensor(XZ, dtype=torch.complex128)
+        ca = torch.cos(theta / 2).reshape(*theta.shape, 1, 1)
+        sa = torch.sin(theta / 2).reshape(*theta.shape, 1, 1)
+        return ca * torch.eye(4, dtype=torch.complex128) - 1j * sa * P
+    theta = np.asarray(theta, dtype=np.float64)
+    ca = np.cos(theta / 2).reshape(*theta.shape, 1, 1)
+    sa = np.sin(theta / 2).reshape(*theta.shape, 1, 1)
+    return ca * np.eye(4) - 1j * sa * XZ
 
 
 def _rot(P, t):
@@ -198,6 +217,7 @@ FAMILY = {
     'ry': (1, lambda a: _rot(ref.Y, a[0]), lambda a: [_drot(ref.Y, a[0])]),
     'rz': (1, lambda a: _rot(ref.Z, a[0]), lambda a: [_drot(ref.Z, a[0])]),
     'rzz': (1, lambda a: _rot(ZZ, a[0]), lambda a: [_drot(ZZ, a[0])]),
+    'rxz': (1, lambda a: _rot(XZ, a[0]), lambda a: [_drot(XZ, a[0])]),  # user gate exp(-i t X(x)Z / 2): NOT symmetric under exchange of its two qubits
     'u3': (3, _u3, _du3),
     'grover': (1, _grover, _dgrover),
 }
@@ -246,6 +266,7 @@ def event_list(nq, level):
         ev += [('P1', 'rx', q, 'T') for q in Q] + [('P1', 'ry', Q[-1], 'T'), ('P1', 'rx', 0, 'H'), ('P1', 'ry', Q[-1], 'H'), ('P1', 'rx', 1, 'Hs'), ('P1', 'ry', 0, 'N')]
         ev += [('u3', 0, 'T'), ('u3', Q[-1], 'H')]
         ev += [('rzz', Q[-1], 0, 'T'), ('rzz', 0, 1, 'H')]
+        ev += [('uxz', 0, 1, 'T'), ('uxz', Q[-1], 0, 'T')] + ([('cxz', (1,), (2, 0), 'T'), ('cxz', (2,), (0, 1), 'T')] if nq >= 3 else [])
         ev += [('CP', 'crx', (0,), 1, 'T'), ('CP', 'crx', (Q[-1],), 0, 'T'), ('CP', 'cry', (1,), 0, 'N')]
         ev += [('cu3', (1,), 0, 'T')]
         if nq >= 3:
@@ -259,6 +280,7 @@ def event_list(nq, level):
     if level == 'ext_s':   # one representative per new provenance / gate kind, for depth 2 in the quick tier
         return [('P1', 'rx', 0, 'Hi'), ('P1', 'rx', 1, 'Hl'), ('u3', 2, 'Hl'), ('rzz', 2, 0, 'Hi'), ('P1', 'rx', 1, 'Td'), ('P1', 'ry', 2, 'Nf'), ('P1', 'rx', 0, 'Tn'),
                 ('cdouble', (1,), (2, 0)), ('crzz', (0,), (2, 1), 'T'), ('crzz', (2,), (0, 1), 'T'), ('triple', (2, 0, 1)), ('P1', 'rx', 1, 'Hs'),
+                ('uxz', 2, 0, 'T'), ('uxz', 0, 2, 'T'), ('cxz', (1,), (2, 0), 'T'),
                 ('append', 0, 0), ('append', 0, 1), ('append', 0, 2)]
     if level == 'tiny':
         return [('P1', 'rx', 1, 'T'), ('P1', 'ry', 0, 'T'), ('P1', 'rx', 0, 'H'), ('P1', 'rx', 1, 'Hs'), ('u3', 1, 'T'), ('CP', 'crx', (0,), 1, 'T'), ('cu3', (1,), 0, 'T'),
@@ -271,6 +293,8 @@ def event_list(nq, level):
         ev += [('u3', q, prov) for prov in ('T', 'H', 'N')]
     for a, b in pairs:
         ev += [('rzz', a, b, prov) for prov in ('T', 'H', 'N')]
+    for a, b in pairs:
+        ev += [('uxz', a, b, 'T')]
     for g in (('crx', 'cry', 'crz') if full else ('crx',)):
         for c, t in _cwires(nq):
             ev += [('CP', g, c, t, prov) for prov in ('T', 'N')]
@@ -304,8 +328,9 @@ def ext_event_list(nq):
         for c in Q:
             rest = [q for q in Q if q != c]
             for t in (tuple(rest), tuple(rest[::-1])):
-                ev += [('cdouble', (c,), t), ('crzz', (c,), t, 'T')]
+                ev += [('cdouble', (c,), t), ('crzz', (c,), t, 'T'), ('cxz', (c,), t, 'T')]
         ev += [('crzz', (1,), (2, 0), 'N')]
+        ev += [('uxz', a, b, 'T') for a, b in itertools.permutations(Q, 2)]
         ev += [('triple', t) for t in itertools.permutations(Q, 3)]
         ev += [('P1', 'rx', 0, 'T'), ('P1', 'ry', 2, 'H'), ('P1', 'rx', 1, 'Hs'), ('C1', 'cnot', 0, 1), ('CP', 'crx', (0,), 1, 'T')]
     else:
@@ -325,9 +350,9 @@ def ext_event_list(nq):
 
 def ev_category(ev):
     k = ev[0]
-    if k in ('P1', 'u3', 'rzz'):
+    if k in ('P1', 'u3', 'rzz', 'uxz'):
         return 'unitary[%s]' % ev[-1]
-    if k in ('CP', 'cu3', 'crzz'):
+    if k in ('CP', 'cu3', 'crzz', 'cxz'):
         return 'control[%s]' % ev[-1]
     if k == 'grover':
         return 'custom[%s]' % ev[-1]
@@ -481,6 +506,18 @@ class Prog:
         elif kind == 'triple':
             g = circ.triple_qubit_gate(A['U3'].copy(), *ev[1])
             op = dict(fam=None, M=A['U3'], ctl=(), tgt=tuple(ev[1]), cat=cat)
+            rec = (g, op, False)
+        elif kind in ('uxz', 'cxz'):
+            # user ParameterGate with an exchange-asymmetric two-qubit matrix, plain ('unitary') or controlled, any target order
+            arg, src, ph = self._args(1, ev[3], cat)
+            if kind == 'uxz':
+                g = self.numqi.sim.ParameterGate('unitary', hf_rxz, arg, name='user_rxz', requires_grad=ev[3] != 'N')
+                circ.append_gate(g, (ev[1], ev[2]))
+                op = dict(fam='rxz', src=src, ctl=(), tgt=(ev[1], ev[2]), cat=cat)
+            else:
+                g = self.numqi.sim.ParameterGate('control', hf_rxz, arg, name='user_crxz', requires_grad=ev[3] != 'N')
+                circ.append_gate(g, (set(ev[1]), tuple(ev[2])))
+                op = dict(fam='rxz', src=src, ctl=tuple(ev[1]), tgt=tuple(ev[2]), cat=cat)
             rec = (g, op, False)
         elif kind == 'crzz':
             arg, src, ph = self._args(1, ev[3], cat)
